@@ -285,7 +285,7 @@ fn fixed_bytes(st: &mut Stats) {
 // ------------------------------------------------------------------------------------------
 // Stats <-> files (worker -> parent)
 
-fn stats_to_json(st: &Stats) -> Value {
+pub fn stats_to_json(st: &Stats) -> Value {
     json!({
         "evals": st.evals,
         "nt_enum": st.nt_enum,
@@ -299,7 +299,7 @@ fn stats_to_json(st: &Stats) -> Value {
     })
 }
 
-fn stats_from_json(v: &Value, hashes: &[u8]) -> Stats {
+pub fn stats_from_json(v: &Value, hashes: &[u8]) -> Stats {
     let mut st = Stats::new();
     st.evals = v["evals"].as_u64().unwrap_or(0);
     st.nt_enum = v["nt_enum"].as_u64().unwrap_or(0);
@@ -590,7 +590,7 @@ enum Outcome {
     Stalled(usize, u64, Option<(usize, u64)>),
 }
 
-fn self_exe() -> std::path::PathBuf {
+pub fn self_exe() -> std::path::PathBuf {
     std::env::current_exe().unwrap()
 }
 
